@@ -102,8 +102,15 @@ func (blockExec *BlockExecutor) CreateProposalBlock(
 
 	evidence, evSize := blockExec.evpool.PendingEvidence(state.ConsensusParams.Evidence.MaxBytes)
 
-	// Fetch a limited amount of valid txs
-	maxDataBytes := types.MaxDataBytes(maxBytes, evSize, state.Validators.Size())
+	// Fetch a limited amount of valid txs.
+	// The block carries the LastCommit, which has one signature slot per validator
+	// of state.LastValidators (none at the initial height) - not of state.Validators:
+	// when the set has just shrunk, budgeting with the current set overruns MaxBytes.
+	lastValsCount := 0
+	if state.LastValidators != nil {
+		lastValsCount = state.LastValidators.Size()
+	}
+	maxDataBytes := types.MaxDataBytes(maxBytes, evSize, lastValsCount)
 
 	txs := blockExec.mempool.ReapMaxBytesMaxGas(maxDataBytes, maxGas)
 
